@@ -82,6 +82,8 @@ ProcShape(e) ==
             IF ~SingleComp(e.path) THEN "procfs openat: not a single component"
             ELSE IF ~Has(e.flags, O_NOFOLLOW) /\ <<e.dfd, e.path>> \notin verified
                  THEN "procfs following open without the preceding no-follow statx of that name"
+            ELSE IF ~Has(e.flags, O_NOFOLLOW) /\ e.reqnf
+                 THEN "procfs link followed although the caller passed O_NOFOLLOW"
             ELSE ""
       [] e.nr \in {"newfstatat", "statx"} ->
             IF e.path = "" THEN (IF Has(e.flags, AT_EMPTY_PATH) THEN "" ELSE "stat of empty path without AT_EMPTY_PATH")
